@@ -41,7 +41,7 @@ PROPERTY = 'C15'
 RULE = ('per list kind (IPv4/IPv6 prefix lists +- add-path, labeled and VPN routes, EVPN routes, flowspec rules, communities of '
         'each kind, cluster lists, AS_PATH segments, OPEN capabilities, BGP-LS NLRIs / descriptors / attribute TLVs, '
         'Prefix-SID TLVs): all ordered pairs of pool elements and random k-tuples (k<=6); attribute permutations (all for '
-        '<= 5 attributes) and unknown-element insertion. Non-trivial = a pair of elements of different widths, or a permutation '
+        '<= 5 attributes, on a 4-octet-AS and on a 2-octet-AS session) and unknown-element insertion. Non-trivial = a pair of elements of different widths, or a permutation '
         'that moves an MP / link-state attribute; distinct by bytes.')
 ASSUMPTIONS = ['elements whose single decode already raises are left out of the pools (counted in the evidence); BGP-LS / '
                'Prefix-SID TLV bodies are taken from the lengths 0..40 x filler patterns the decoder accepts on their own',
@@ -279,11 +279,11 @@ def _size(v):
 
 
 # ------------------------------------------------------------------------------------------ attributes
-def attr_pool():
+def attr_pool(asn4=True):
     ls = tlv(1026, b'router-1') + tlv(1028, rc.ip4('1.1.1.1')) + tlv(1158, b'\x01\x02\x03\x04\x05') + tlv(1099, b'\x01\x02\x03\x04\x05')
     return [
-        (1, rc.a_origin(0)), (2, rc.a_as_path([(2, [65002, 65003])], True)), (3, rc.a_next_hop('10.0.0.2')), (4, rc.a_med(5)),
-        (5, rc.a_local_pref(100)), (6, rc.a_atomic()), (7, rc.a_aggregator(65002, '1.1.1.1', True)), (8, rc.a_communities([0xFFFFFF01, 5])),
+        (1, rc.a_origin(0)), (2, rc.a_as_path([(2, [65002, 65003])], asn4)), (3, rc.a_next_hop('10.0.0.2')), (4, rc.a_med(5)),
+        (5, rc.a_local_pref(100)), (6, rc.a_atomic()), (7, rc.a_aggregator(65002, '1.1.1.1', asn4)), (8, rc.a_communities([0xFFFFFF01, 5])),
         (9, rc.a_originator('2.2.2.2')), (10, rc.a_cluster_list(['3.3.3.3'])), (16, rc.a_ext_communities([struct.pack('!HHI', 2, 1, 1)])),
         (32, rc.a_large_communities([(1, 2, 3)])), (17, rc.a_as4_path([(2, [70000])])), (18, rc.a_as4_aggregator(70000, '4.4.4.4')),
         (14, rc.a_mp_reach(2, 1, rc.ip6('2001:db8::1'), rc.prefix6('2001:db8:1::/48'))), (15, rc.a_mp_unreach(2, 1, rc.prefix6('2001:db8:2::/48'))),
@@ -295,30 +295,30 @@ def attr_pool():
     ]
 
 
-def parse_attrs(blobs):
-    res = Update.parse(None, rc.update_body(attrs=b''.join(blobs)), True)
+def parse_attrs(blobs, asn4=True):
+    res = Update.parse(None, rc.update_body(attrs=b''.join(blobs)), asn4)
     return res.get('sub_error'), norm(res.get('attr'))
 
 
-def check_perm(idxs, perm, insert_unknown=None):
-    pool = attr_pool()
+def check_perm(idxs, perm, insert_unknown=None, asn4=True):
+    pool = attr_pool(asn4)
     blobs = [pool[i][1] for i in idxs]
-    base_err, base = parse_attrs(blobs)
+    base_err, base = parse_attrs(blobs, asn4)
     if base_err:
         return None
     pb = [blobs[i] for i in perm]
     names = [str(pool[i][0]) for i in idxs]
     if insert_unknown is not None:
         pb = pb[:insert_unknown] + [rc.a_unknown(123, b'\xde\xad')] + pb[insert_unknown:]
-    err, got = parse_attrs(pb)
+    err, got = parse_attrs(pb, asn4)
     if insert_unknown is not None and got is not None:
         got = {k: v for k, v in got.items() if k != 123}
     if err or got != base:
         moved = [n for n in names if n in ('14', '15', '29', 'ls-mp')]
         return [('attribute-order:%s:%s' % ('unknown-inserted' if insert_unknown is not None else 'permuted',
                                             'mp/ls' if moved else 'plain'),
-                 'attributes %r in order %r%s decode to %r (sub_error %r), in the original order to %r'
-                 % (names, list(perm), ' with an unknown attribute inserted' if insert_unknown is not None else '', got, err, base))]
+                 'attributes %r (%s-octet AS session) in order %r%s decode to %r (sub_error %r), in the original order to %r'
+                 % (names, 4 if asn4 else 2, list(perm), ' with an unknown attribute inserted' if insert_unknown is not None else '', got, err, base))]
     return []
 
 
@@ -411,20 +411,21 @@ def run_shard(spec, seed, col, tier):
             keys = [pool[i][0] for i in idxs]
             if (14 in keys and 'ls-mp' in keys) or (4 in keys and '4x' in keys) or (8 in keys and '8x' in keys):
                 continue
-            for perm in itertools.permutations(range(len(idxs))):
-                res = check_perm(idxs, perm)
-                if res is None:
-                    break
-                cnt += 1
-                if any(k in (14, 15, 29, 'ls-mp') for k in keys):
-                    nt += 1
-                for sig, detail in res:
-                    col.fail(sig, {'idxs': list(idxs), 'perm': list(perm)}, detail)
-            for pos in range(len(idxs) + 1):
-                res = check_perm(idxs, tuple(range(len(idxs))), insert_unknown=pos)
-                cnt += 1
-                for sig, detail in res or []:
-                    col.fail(sig, {'idxs': list(idxs), 'perm': list(range(len(idxs))), 'insert': pos}, detail)
+            for asn4 in (True, False):
+                for perm in itertools.permutations(range(len(idxs))):
+                    res = check_perm(idxs, perm, asn4=asn4)
+                    if res is None:
+                        break
+                    cnt += 1
+                    if any(k in (14, 15, 29, 'ls-mp') for k in keys) or not asn4:
+                        nt += 1
+                    for sig, detail in res:
+                        col.fail(sig, {'idxs': list(idxs), 'perm': list(perm), 'asn4': asn4}, detail)
+                for pos in range(len(idxs) + 1):
+                    res = check_perm(idxs, tuple(range(len(idxs))), insert_unknown=pos, asn4=asn4)
+                    cnt += 1
+                    for sig, detail in res or []:
+                        col.fail(sig, {'idxs': list(idxs), 'perm': list(range(len(idxs))), 'insert': pos, 'asn4': asn4}, detail)
         col.bulk(cnt, nt, label='attr-permutations', sample={'idxs': list(subsets[0]), 'perm': list(range(len(subsets[0])))[::-1]} if subsets else None)
 
         def body(t):
@@ -434,11 +435,12 @@ def run_shard(spec, seed, col, tier):
                 return
             perm = list(range(len(idxs)))
             random.Random(seedperm).shuffle(perm)
-            res = check_perm(idxs, perm)
+            asn4 = seedperm % 3 != 0
+            res = check_perm(idxs, perm, asn4=asn4)
             if res is None:
                 return
-            case = {'idxs': list(idxs), 'perm': perm}
-            col.case(case, any(k in (14, 15, 29, 'ls-mp') for k in keys), labels=['attr-random-perm'])
+            case = {'idxs': list(idxs), 'perm': perm, 'asn4': asn4}
+            col.case(case, any(k in (14, 15, 29, 'ls-mp') for k in keys), labels=['attr-random-perm', 'asn4:%s' % asn4])
             for sig, detail in res:
                 col.fail(sig, case, detail)
         hyp_run(col, st.tuples(st.lists(st.integers(0, n - 1), min_size=6, max_size=12, unique=True), st.integers(0, 10 ** 6)), body, seed, spec['examples'])
@@ -446,7 +448,7 @@ def run_shard(spec, seed, col, tier):
 
 def replay(case):
     if 'idxs' in case:
-        return check_perm(case['idxs'], case['perm'], case.get('insert')) or []
+        return check_perm(case['idxs'], case['perm'], case.get('insert'), case.get('asn4', True)) or []
     if case.get('insert') is True:
         f, pool, mode = kinds()[case['k']]
         a, u, b = [bytes.fromhex(x) for x in case['elems']]
